@@ -2,8 +2,9 @@
    Subquery.v, Pivot.v): compiled nodes and queries are lowered to the executor's syntax, so that a statement is
    compiled AND executed inside Coq ([run_stmt]).  The lowering covers the subset Eval.v models and refuses
    (None) everything else; it is validated, not trusted: a lowered query is returned only if Model/Typing.v
-   assigns every lowered target the datatype the compiler announced.  Folded constants (CFold) are re-evaluated
-   with Eval.eval on the lowered call, so the link does not trust the compiler's constant folding either. *)
+   assigns every lowered target the datatype the compiler announced.  Folded constants (CFold) are lowered to the
+   call they were folded from, so the executor model recomputes them: the link does not trust the compiler's
+   constant folding either. *)
 From Coq Require Import String ZArith List Bool.
 Import ListNotations.
 From Verif Require Import Base.Out Base.PyValue Base.Decimal.
@@ -85,25 +86,27 @@ Definition lower_call (name : string) (ins : list string) (args : list enode) : 
 
 Definition is_err (v : value) : bool := match v with VErr _ => true | _ => false end.
 
-(* the value of a constant; a folded constant is recomputed by the executor model *)
-Fixpoint fold_value (v : cval) : option value :=
+(* a constant; a folded constant (CFold) is lowered to the CALL it was folded from, on its (constant) operands, so
+   that the executor model recomputes it and Typing.v sees the announced datatype (bool(NULL) is a bool, its value
+   NULL); if the call evaluates to an exception value the compiler itself would have raised: not lowerable *)
+Fixpoint fold_node (v : cval) : option enode :=
   match v with
-  | CScalar x => Some x
+  | CScalar x => Some (Ev.EConst x)
   | CListV _ => None
   | CFold f i args =>
-      match (fix go (l : list cval) : option (list value) :=
+      match (fix go (l : list cval) : option (list enode) :=
                match l with
                | [] => Some []
-               | x :: t => match fold_value x, go t with Some a, Some r => Some (a :: r) | _, _ => None end
+               | x :: t => match fold_node x, go t with Some a, Some r => Some (a :: r) | _, _ => None end
                end) args with
       | None => None
-      | Some vs =>
+      | Some es =>
           match overload_at f i with
           | None => None
           | Some o =>
-              match lower_call f (ov_ins o) (map Ev.EConst vs) with
+              match lower_call f (ov_ins o) es with
               | None => None
-              | Some e => let r := Ev.eval [] [] e in if is_err r then None else Some r
+              | Some e => if is_err (Ev.eval [] [] e) then None else Some e
               end
           end
       end
@@ -145,7 +148,7 @@ Fixpoint lower (cols : list (string * ty)) (h : nat) (n : cnode) {struct n} : op
                     end
                 end in
   match n with
-  | NConst v _ => match fold_value v with Some x => Some (Ev.EConst x, []) | None => None end
+  | NConst v _ => match fold_node v with Some e => Some (e, []) | None => None end
   | NCol name _ => match col_index name cols 0 with Some i => Some (Ev.ECol i, []) | None => None end
   | NOp op i args _ =>
       if is_in_op op then
